@@ -122,7 +122,7 @@ def nonoverlapping(t):
 
 
 def pokeable(t):
-    return isinstance(t, torch.Tensor) and t.dtype == P.DT and t.numel() > 0 and nonoverlapping(t) and not t.requires_grad
+    return isinstance(t, torch.Tensor) and t.dtype == P.DT and t.numel() > 0 and nonoverlapping(t) and (not t.requires_grad or t.is_leaf)
 
 
 class Case:
@@ -261,6 +261,7 @@ def run_case(run: Run, spec, tmp):
     real_states = [[P.canon_real_obj(world, n0, ob) for ob in objs]]
     # ---- chained in-place operation on the result (a tensordict-level write through a view / into a copy)
     chained = False
+    lost_update = None
     if chain and (cls in ("view", "copy", "contiguous") or (row in run.deviations and doc in ("view", "copy"))) and res_leaves:
         from tensordict import TensorDictBase, is_tensorclass
         tgt = result
@@ -290,6 +291,12 @@ def run_case(run: Run, spec, tmp):
                 # e.g. in-place on an expanded result: torch refuses, possibly after having written some entries
                 # (partial effect of a raising op is not modelled): the case ends here
                 return None, None, {"case": case, "status": "chain-raised:" + err_class(e), "msg": str(e)[:120]}
+            if chained and chain in ("zero_", "__setitem__/index"):
+                # the in-place operation must at least be visible through the tensordict it was called on
+                want = 0.0 if chain == "zero_" else 7.0
+                stale = [n for n, t in P.leaves_of(tgt) if t.dtype == P.DT and t.numel() and not bool((t == want).all())]
+                if stale:
+                    lost_update = f"{chain} on the result had no effect on its entries {stale[:3]}"
             if chained:
                 res_after = P.leaves_of(result)
                 if [n for n, _ in res_after] != [n for n, _ in res_leaves]:
@@ -394,6 +401,8 @@ def run_case(run: Run, spec, tmp):
                         seen |= set(leaf[-1])
                 if toks & seen:
                     verdicts.append(f"sentinel written through source entry {n} is read through the copy")
+    if lost_update:
+        verdicts.append(lost_update)
     if chained and ocls in ("view", "copy"):
         st_op, st_ch = real_states[0], real_states[1]
         def toks_of(state, ois):
@@ -499,6 +508,96 @@ def setstr_stream(run, drv):
         run.corr("set_str", case, impl, model)
 
 
+
+def index_stream(run, drv):
+    """td[index] for random index tuples from the grammar {int, slice, None, ..., 0-d int tensor | list, tensor, mask, range, ndarray}:
+    does every result entry share the source's storage?  vs Model `indexClass` (view / copy)"""
+    import numpy as np
+    from tensordict import TensorDict
+    rng = run.rng
+    n = 300 if run.tier == "quick" else 3000
+    reqs, obs, cases = [], [], []
+    for it in range(n):
+        bs = rng.choice([(2, 3), (3, 2), (2, 3, 2), (4,)])
+        cnt = P.Counter()
+        td = TensorDict({"a": P.make_leaf(bs, "contiguous", cnt), "b": P.make_leaf(tuple(bs) + (2,), rng.choice(["contiguous", "strided", "offset"]), cnt)}, batch_size=bs)
+        items, kinds = [], []
+        dim = 0
+        used_ellipsis = False
+        adv = 0
+        for _ in range(rng.randint(1, len(bs) + 1)):
+            k = rng.choice(["int", "slice", "none", "ellipsis", "int0d", "list", "tensor", "mask", "range", "array"])
+            if k == "ellipsis":
+                if used_ellipsis:
+                    continue
+                used_ellipsis = True
+                items.append(Ellipsis); kinds.append(k)
+                dim = len(bs)      # anything after `...` would address trailing dims: stop consuming
+                break
+            if k == "none":
+                items.append(None); kinds.append(k)
+                continue
+            if dim >= len(bs):
+                break
+            size = bs[dim]
+            if k == "int":
+                items.append(rng.randrange(-size, size))
+            elif k == "slice":
+                items.append(rng.choice([slice(None), slice(0, 1), slice(1, None), slice(None, None, 2), slice(0, 0)]))
+            elif k == "int0d":
+                items.append(torch.tensor(rng.randrange(size)))
+            elif k == "list":
+                items.append([rng.randrange(size) for _ in range(rng.randint(1, 2))])
+            elif k == "tensor":
+                items.append(torch.tensor([rng.randrange(size) for _ in range(rng.randint(1, 2))]))
+            elif k == "mask":
+                items.append(torch.tensor([rng.random() < 0.6 for _ in range(size)]))
+            elif k == "range":
+                items.append(range(0, size))
+            elif k == "array":
+                items.append(np.array([rng.randrange(size)]))
+            if k in ("list", "tensor", "mask", "range", "array"):
+                adv += 1
+                if adv > 1:          # several advanced items broadcast together: keep them compatible by stopping here
+                    items.pop(); break
+            kinds.append(k)
+            dim += 1
+        if not items:
+            continue
+        idx = items[0] if len(items) == 1 and rng.random() < 0.5 else tuple(items)
+        try:
+            with time_limit(10):
+                r = td[idx]
+        except Exception as e:
+            run.count("index.outcome", "raised")
+            continue
+        src = {t.untyped_storage().data_ptr() for _, t in P.leaves_of(td)}
+        leaves = [(nm, t) for nm, t in P.leaves_of(r) if t.numel() > 0]
+        if not leaves:
+            run.count("index.outcome", "empty-result")
+            continue
+        sh = [t.untyped_storage().data_ptr() in src for _, t in leaves]
+        observed = "view" if all(sh) else ("copy" if not any(sh) else "mixed")
+        case = {"batch": list(bs), "items": kinds, "tuple": isinstance(idx, tuple)}
+        run.case(("index", it, str(case)), nontrivial=True)
+        run.count("index.outcome", observed)
+        for k in kinds:
+            run.count("index.item", k)
+        reqs.append(sx("c07.index_class", ["newaxis" if k == "none" else k for k in kinds]))
+        obs.append(observed)
+        cases.append(case)
+        # property oracle: basic indexing shares, advanced indexing never does
+        basic = all(k in ("int", "slice", "none", "ellipsis", "int0d") for k in kinds)
+        if basic and observed != "view":
+            run.oracle_fail("index", case, f"basic index returned entries in their own storage ({observed})", fingerprint="index_basic_copied")
+        elif not basic and observed != "copy":
+            run.oracle_fail("index", case, f"advanced index returned entries sharing the source ({observed})", fingerprint="index_advanced_shares")
+        else:
+            run.oracle_ok("index")
+    for case, o, a in zip(cases, obs, ask_chunked(drv, reqs)):
+        run.corr("index_class", case, o, a.strip())
+
+
 def main():
     run = Run("C07")
     run.rule = ("every public operation of TensorDict (reflected) must have a row in the Lean class table; each row with a call recipe is executed on "
@@ -541,6 +640,7 @@ def main():
 
     # 1b. the write entry point
     setstr_stream(run, drv)
+    index_stream(run, drv)
 
     # 2. cases
     rng = run.rng
